@@ -341,8 +341,77 @@ def r5_density(repo: Repo, rep):
                             if v == "self.compute_n_from_density(d, params)":
                                 ok = True
                             elif v == "2 * self.compute_n_from_density(d, params)" and ci.name == "Triangle" and mname == "sample_random_uniform":
-                                ok = True  # half of the unit-square proposals are rejected in the density branch (documented)
+                                # twice the count is proposed in the unit square: under a density the half with u + v >= 1 has to be *removed*
+                                # (mirroring it, as for a requested count, would return twice density * area points)
+                                ok = _density_half_removed(repo, rep, R, ci, sf)
             rep.check(R, ok, sf.site(), sf.fq, "if d: n = self.compute_n_from_density(d, params)", "density branch differs", "density branch")
+
+
+def _density_half_removed(repo, rep, R, ci, sf) -> bool:
+    helpers = [c for c in ast.walk(sf.node) if isinstance(c, ast.Call) and isinstance(c.func, ast.Attribute) and dump(c.func.value) == "self"
+               and c.args and dump(c.args[0]) == "d" and c.func.attr != "compute_n_from_density"]
+    if not helpers:
+        return False
+    good = False
+    for c in helpers:
+        h = repo.resolve_method(ci, c.func.attr)
+        if h is None:
+            continue
+        rep.saw(h)
+        dn = h.params[1]
+        under_d = [p for p in paths(h.node) if p.ret is not RAISE and any(pol and dump(g) == dn for g, pol, k in p.guards)]
+        if not under_d:
+            rep.violation(R, h.site(), h.fq, "under a density the doubled proposals are thinned out (rows with u + v >= 1 removed)", f"no branch on `{dn}`: every proposal is kept", "doubled proposals all kept")
+            return True  # reported here
+        for p in under_d:
+            stores = [e for e in p.events if e.kind == "store"]
+            sel = p.ret
+            while isinstance(sel, ast.Call) and isinstance(sel.func, ast.Attribute) and sel.func.attr in ("unsqueeze", "reshape", "view"):
+                sel = sel.func.value
+            while isinstance(sel, ast.Subscript) and not any(isinstance(x, ast.Call) for x in ast.walk(sel.slice)):
+                sel = sel.value  # [None, :] and the like
+            removed = isinstance(sel, ast.Subscript) and any(isinstance(x, ast.Call) and (attr_chain(x.func) or "").endswith("where") for x in ast.walk(sel.slice)) and not stores
+            rep.check(R, removed, h.site(p.ret_node), h.fq, "under a density the rows with u + v >= 1 are removed, not mirrored", dump(p.ret)[:80], "density branch keeps all proposals")
+            good = True
+    return good
+
+
+def r5d_exclusive_contributions(repo: Repo, rep):
+    R = rep.rule("R-C10-5d", "density sampling of a Boolean boundary takes every boundary piece from one operand only: the facts of the two returned contributions exclude each other",
+                 floor=6, why="a piece on which both boundaries coincide and that both contributions keep is sampled twice: density * (length + shared length) points")
+    from ..absdom import boolform as B
+    from ..absdom.facts import OPAQUE, AllParams, Const, Interp, Misuse, Undecided, operands
+    from .c01 import CLASSES, OPS
+    from .c05 import closed_only, membership_formula
+    for mod, cname in CLASSES:
+        if "Boundary" not in cname:
+            continue
+        ci = repo.cls(f"{OPS}.{mod}.{cname}")
+        try:
+            F = membership_formula(ci.methods["_contains"])[0][0][0]
+        except Exception as e:
+            rep.undecided(R, ci.module.relpath, ci.fq, "membership formula extractable", str(e)[:80])
+            continue
+        for mname in ("sample_random_uniform", "sample_grid"):
+            fi = ci.methods.get(mname)
+            if fi is None:
+                continue
+            rep.saw(fi)
+            it = Interp(repo, ci, F, True)
+            try:
+                rets = it.entry(fi, {p: (AllParams() if p == "params" else Const(None) if p == "n" else OPAQUE) for p in fi.params[1:]})
+            except (Undecided, Misuse) as e:
+                rep.undecided(R, fi.site(), fi.fq, "density path interpretable", str(e)[:100])
+                continue
+            for f in it.visited:
+                rep.saw(f)
+            for v, site in zip(rets, it.ret_sites):
+                ops = operands(v) or []
+                for i in range(len(ops)):
+                    for j in range(i + 1, len(ops)):
+                        both = B.satisfiable(B.conj(ops[i].facts, ops[j].facts), closed_only)
+                        rep.check(R, not both, fi.site(site), fi.fq, f"contributions from {ops[i].origin} and {ops[j].origin} exclude each other",
+                                  f"both keep points with {B.show(ops[i].facts)} and {B.show(ops[j].facts)}", f"{ops[i].origin}/{ops[j].origin} overlap")
 
 
 def r5b_estimated_volumes(repo: Repo, rep):
@@ -438,6 +507,7 @@ def run(repo: Repo, rep):
     r7_no_param_cache(repo, rep)
     r5b_estimated_volumes(repo, rep)
     r5c_density_grids(repo, rep)
+    r5d_exclusive_contributions(repo, rep)
     from .c06 import r4c_mesh_outward  # the mesh volume is signed: it is the measure only for outward-facing faces
     r4c_mesh_outward(repo, rep)
     try:
@@ -446,6 +516,8 @@ def run(repo: Repo, rep):
         r2_setters(repo, rep, rule_id="R-C17-2")
     except ImportError:
         pass
+    from .c13 import r5_copy_on_partial  # "unchanged by partial evaluation": the fixed values live in a deep copy, not in defaults shared with other evaluations
+    r5_copy_on_partial(repo, rep)
 
 
 _CI = "src/torchphysics/problem/domains/domain2D/circle.py"
